@@ -56,6 +56,7 @@ int main(int argc, char **argv) {
             else if (!strcmp(tok[0], "num")) ok = op_num(nt - 1, tok + 1);
             else if (!strcmp(tok[0], "fn")) ok = op_fn(nt - 1, tok + 1);
             else if (!strcmp(tok[0], "urlenc")) ok = op_urlenc(nt - 1, tok + 1);
+            else if (!strcmp(tok[0], "mpart")) ok = op_mpart(nt - 1, tok + 1);
             else if (!strcmp(tok[0], "conn")) ok = op_conn(0, nt - 1, tok + 1);
             else if (!strncmp(tok[0], "conn@", 5)) ok = op_conn(atoi(tok[0] + 5), nt - 1, tok + 1);
         }
@@ -64,6 +65,7 @@ int main(int argc, char **argv) {
     }
     free(line);
     prim_cleanup();
+    mpart_cleanup();
     conn_cleanup();
     fflush(stdout);
     return 0;
